@@ -666,6 +666,35 @@ TOTAL_ORDER_TYPES = ("u8", "u16", "u32", "u64", "u128", "usize", "i8", "i16", "i
                      "std::time::Instant", "tokio::time::Instant")
 
 
+def expand_then_some(B):
+    """`c.then_some(v)` is `if c { Some(v) } else { None }`: written out, so that rules about where `Some(..)` / `None` are built see
+    the same two places whichever way the function ends"""
+    n = 0
+    for bi in range(len(B.blocks)):
+        blk = B.blocks[bi]
+        t = blk["term"]
+        if t is None or t["k"] != "call" or blk.get("cleanup") or not isinstance(t.get("t"), int) or len(t["args"]) != 2:
+            continue
+        if not str(t["callee"].get("decl") or "").endswith("bool>::then_some") and not str(t["callee"].get("resolved") or "").endswith("bool>::then_some"):
+            continue
+        oty = B.locals[t["dest"][0]].get("ty", "std::option::Option<?>") if len(t["dest"]) == 1 else "std::option::Option<?>"
+        bo = len(B.blocks)
+        sp = t.get("sp")
+        B.blocks.append({"stmts": [{"p": tuple(t["dest"]), "rv": {"k": "agg", "akind": "adt", "adt": "std::option::Option", "variant": "Some", "vidx": 1,
+                                                                  "fields": ["0"], "ops": [t["args"][1]], "ty": oty}, "sp": sp}],
+                         "term": {"k": "goto", "t": t["t"]}})
+        B.blocks.append({"stmts": [{"p": tuple(t["dest"]), "rv": {"k": "agg", "akind": "adt", "adt": "std::option::Option", "variant": "None", "vidx": 0,
+                                                                  "fields": [], "ops": [], "ty": oty}, "sp": sp}],
+                         "term": {"k": "goto", "t": t["t"]}})
+        B.blocks[bi] = {"stmts": blk["stmts"], "term": {"k": "switch", "discr": t["args"][0], "targets": [(0, bo + 1)], "otherwise": bo, "ty": "bool"}}
+        n += 1
+    if n:
+        B._names = None
+        B._cfg = None
+        B._defs = None
+    return n
+
+
 def forward_refs(B):
     """`r = &mut x` (directly or through moves of single-definition temporaries) with `x` a plain local place: every `(*r)…` reads
     and writes `x…`.  Binding a reference parameter of a spliced helper leaves such chains behind; after forwarding, `*cut = true`
@@ -1159,6 +1188,10 @@ def inline_program(P):
         for fid in list(bodies):
             if fid not in changed and len(bodies[fid].blocks) < 900:
                 changed[fid] = _clone_body(bodies[fid])
+    for fid, B in changed.items():
+        k = expand_then_some(B)
+        if k:
+            log.append("%s: %d then_some(..) written out" % (fid, k))
     for fid, B in changed.items():
         k = forward_refs(B)
         if k:
